@@ -200,10 +200,19 @@ func (dc *TraditionalDnsConn) readLoop() {
 			dc.CloseWithErr(fmt.Errorf("read err, %w", err)) // abort this connection.
 			return
 		}
-		dc.waitingResp.Store(false)
 
 		rid := binary.BigEndian.Uint16(*r)
 		resChan := dc.getQueueC(rid)
+
+		// Other queries may still be waiting for their replies. Keep waiting
+		// for them with the shorter waiting-reply deadline, otherwise a query that
+		// is never answered will only fail after the idle timeout.
+		waiting := dc.queueLen()
+		if resChan != nil {
+			waiting--
+		}
+		dc.waitingResp.Store(waiting > 0)
+
 		if resChan != nil {
 			select {
 			case resChan <- r: // resChan has buffer
